@@ -94,9 +94,9 @@ func run(todo []eng.Property, repo, out, tier, knownPath string, list bool) int 
 		}
 		c := eng.RunProperty(pr, progs, tier, known, extra)
 		stats := map[string]interface{}{
-			"packages":        len(progs[0].Pkgs),
+			"packages":         len(progs[0].Pkgs),
 			"module_functions": progs[0].NumFuncs,
-			"load_s":          loadS,
+			"load_s":           loadS,
 		}
 		if list {
 			b, _ := json.MarshalIndent(c.Obls, "", " ")
